@@ -154,7 +154,7 @@ func init() {
 		Name:  "FLOW-funnel",
 		Doc:   "Parse, ParseRef, (*Url).Parse and the package-level wrappers pass their arguments unchanged into BasicParser(·, base, nil, NoState); ParseRef's base is Parse(rawUrl) of the same parser; (*Url).Parse runs on the receiver's own parser; every URL leaving BasicParser carries the parser that produced it",
 		Props: []string{"C06"},
-		Floor: 6,
+		Floor: 4,
 		Run: func(c *Ctx, s *core.Sink) {
 			bp := c.P.Func("url", "parser", "BasicParser")
 			if bp == nil {
@@ -441,7 +441,7 @@ func init() {
 		Name:  "FLOW-strconv",
 		Doc:   "every strconv.ParseInt/ParseUint/Atoi on input-derived text is reached only after a digits-only validation of that very text against a digit table that fits the radix (strconv accepts '+' and '-')",
 		Props: []string{"C07", "C01"},
-		Floor: 5,
+		Floor: 2,
 		Run: func(c *Ctx, s *core.Sink) {
 			env := BuildTables(c)
 			spec := loadSetsSpec(c)
@@ -533,7 +533,7 @@ func init() {
 		Name:  "FLOW-ipv4",
 		Doc:   "the IPv4 parser and the ends-in-a-number checker run only where a bool parameter that carries !url.IsSpecialScheme() (directly or handed down by a caller) is known to be false, the IPv4 parser only when the checker answered true for the same text",
 		Props: []string{"C07"},
-		Floor: 3,
+		Floor: 2,
 		Run: func(c *Ctx, s *core.Sink) {
 			p4 := c.P.Func("url", "parser", "parseIPv4")
 			en := c.P.Func("url", "parser", "endsInANumber")
